@@ -134,7 +134,7 @@ func (ex *Exec) streamFromModel(s *State, model map[int]*big.Int) map[string]int
 					bs[i] = byte(t.U64())
 				}
 			}
-			stream[in.Key] = hex.EncodeToString(bs)
+			stream[in.Key] = "x:" + hex.EncodeToString(bs)
 		default:
 			t := in.Terms[0]
 			var v *big.Int
@@ -200,3 +200,38 @@ func (ex *Exec) Summary() map[string]interface{} {
 }
 
 func (ex *Exec) SetSolverLog(w interface{ Write([]byte) (int, error) }) { ex.sol.Log = w }
+
+func (ex *Exec) AddMerge(name string) { ex.merge[name] = true }
+
+// SolverStats returns (unsat, sat, unknown) counts, solver time and error lines.
+func (ex *Exec) SolverStats() ([3]int, float64, []string) {
+	return [3]int{ex.sol.NUnsat, ex.sol.NSat, ex.sol.NUnknown}, ex.sol.Time.Seconds(), ex.sol.Errors
+}
+
+// ConcreteRun executes a harness in concrete mode (every nondet value fixed) and returns
+// the trace of assume/assert/reach outcomes, for comparison with a native run.
+func ConcreteRun(p *Program, harness string, params map[string]int, conc map[string]*big.Int) (trace []string) {
+	lim := DefaultLimits()
+	lim.Unwind = 100000
+	lim.MaxAlloc = 1 << 16
+	ex, err := NewExec(p, harness, params, lim, "z3")
+	if err != nil {
+		return []string{"engine-error " + err.Error()}
+	}
+	defer ex.Close()
+	ex.Concrete = conc
+	if ex.Concrete == nil {
+		ex.Concrete = map[string]*big.Int{}
+	}
+	defer func() {
+		if r := recover(); r != nil {
+			trace = append(ex.ConcTrace, fmt.Sprintf("engine-panic %v", r))
+		}
+	}()
+	ex.RunHarness()
+	tr := ex.ConcTrace
+	for k, n := range ex.Stats.Unsupported {
+		tr = append(tr, fmt.Sprintf("unsupported %s x%d", k, n))
+	}
+	return tr
+}
